@@ -74,7 +74,10 @@ void DynamicConstructorDataGlobal::reloadPoints(std::function<int(int)> getNumPo
 
 void DynamicConstructorDataGlobal::clearTesnors(){
     for(auto t = tensors.begin(), p = tensors.before_begin(); t != tensors.end(); t++){
-        if (t->weight >= 0.0){
+        // a tensor that holds delivered samples (all or some of its points) stays registered,
+        // otherwise those samples could not be promoted when the tensor becomes admissible
+        bool holds_samples = t->loaded.empty() or std::any_of(t->loaded.begin(), t->loaded.end(), [](bool b)->bool{ return b; });
+        if (t->weight >= 0.0 and not holds_samples){
             tensors.erase_after(p);
             t = p;
         }else{
@@ -93,6 +96,12 @@ MultiIndexSet DynamicConstructorDataGlobal::getInitialTensors() const{
 }
 
 void DynamicConstructorDataGlobal::addTensor(const int *tensor, std::function<int(int)> getNumPoints, double weight){
+    for(auto &t : tensors){ // already registered (kept by clearTesnors() because it holds samples), only refresh the weight
+        if (std::equal(t.tensor.begin(), t.tensor.end(), tensor)){
+            if (t.weight >= 0.0) t.weight = weight;
+            return;
+        }
+    }
     tensors.emplace_front(TensorData{
                           weight,
                           std::vector<int>(tensor, tensor + num_dimensions),
